@@ -12,7 +12,7 @@ Ev     == Traces[tid].ev[l]
 ASSUME \A i \in 1..NT : TLCSet(i, 0)
 Chk(nm, c) == IF c THEN TRUE ELSE PrintT(<<"MISMATCH", Traces[tid].tid, l, nm>>) /\ FALSE
 ToSetOf(s) == {s[k] : k \in DOMAIN s}
-SpOf(tr) == {[rank |-> tr.species[k].rank, degree |-> tr.species[k].degree, base |-> tr.species[k].base,
+SpOf(tr) == {[rank |-> tr.species[k].rank, degree |-> tr.species[k].degree, base |-> tr.species[k].base, key |-> tr.species[k].key,
               surface |-> tr.species[k].surface, sgroup |-> tr.species[k].sgroup, charge |-> tr.species[k].charge] : k \in DOMAIN tr.species}
 TInit == tid \in 1..NT /\ l = 1 /\ IInit(SpOf(Traces[tid]))
 IsEv(a) == l <= Len(Traces[tid].ev) /\ Ev.act = a /\ l' = l + 1 /\ UNCHANGED tid
@@ -48,6 +48,7 @@ Track ==
   /\ Chk("Inv:Bijection", Bijection)
   /\ Chk("Inv:AliasLegal", AliasLegal)
   /\ Chk("Inv:AliasInjective", AliasInjective)
+  /\ Chk("Inv:OneRecordPerSpecies", OneRecordPerSpecies)
   /\ Chk("Inv:ViewsAgree", ViewsAgree)
   /\ TLCSet(tid, IF l > TLCGet(tid) THEN l ELSE TLCGet(tid))
 Verdicts == \A i \in 1..NT : PrintT(<<"VERDICT", Traces[i].tid, TLCGet(i), Len(Traces[i].ev) + 1>>)
